@@ -353,3 +353,263 @@ Proof.
   split; [|split]; [| |vm_compute; reflexivity];
     intros (o & acc & H); vm_compute in H; discriminate.
 Qed.
+
+(* ================================================================== C20 *)
+From Jen Require Import Model.Heap Proofs.HeapProofs.
+
+Definition is_block (c : code) : bool :=
+  match c with CGroup _ name _ _ _ _ _ => str_eqb name s_block | _ => false end.
+Definition gids (l : list code) : list N :=
+  flat_map (fun c => match c with CGroup g _ _ _ _ _ _ => [g] | _ => [] end) l.
+Definition block_gids (l : list code) : list N :=
+  flat_map (fun c => match c with
+                     | CGroup g name _ _ _ _ _ => if str_eqb name s_block then [g] else []
+                     | _ => [] end) l.
+(* the RAW last item (Statement.previous looks at index - 1, null or not) *)
+Fixpoint lastp (p : option code) (l : list code) : option code :=
+  match l with [] => p | x :: r => lastp (Some x) r end.
+Definition last_is_case (vs : list code) : bool :=
+  match lastp None vs with Some x => is_case_or_default x | None => false end.
+(* the RAW first item of app is (the same group as) a block group of app *)
+Definition head_is_block (app : list code) : bool :=
+  match app with
+  | CGroup g _ _ _ _ _ _ :: _ => existsb (N.eqb g) (block_gids app)
+  | _ => false
+  end.
+
+Lemma prev_of_app_in g : forall l1 l2 p, In g (gids l1) ->
+  prev_of g p (l1 ++ l2) = prev_of g p l1.
+Proof.
+  induction l1 as [|x l1 IH]; intros l2 p Hin; [destruct Hin|].
+  cbn [app prev_of]. destruct x as [| | |tk|g' nm o c sp mu its|its|ps|kvs|s];
+    try (apply IH; exact Hin).
+  destruct (N.eqb_spec g' g) as [->|Hne]; [reflexivity|].
+  apply IH. cbn [gids flat_map app] in Hin. destruct Hin as [E|Hin]; [congruence | exact Hin].
+Qed.
+
+Lemma prev_of_app_notin g : forall l1 l2 p, ~ In g (gids l1) ->
+  prev_of g p (l1 ++ l2) = prev_of g (lastp p l1) l2.
+Proof.
+  induction l1 as [|x l1 IH]; intros l2 p Hni; [reflexivity|].
+  cbn [app prev_of lastp].
+  assert (Hni' : ~ In g (gids l1)).
+  { intros H. apply Hni. unfold gids. cbn [flat_map]. apply in_or_app. right. exact H. }
+  destruct x as [| | |tk|g' nm o c sp mu its|its|ps|kvs|s]; try (apply IH; exact Hni').
+  destruct (N.eqb_spec g' g) as [->|Hne].
+  - exfalso. apply Hni. cbn. left. reflexivity.
+  - apply IH. exact Hni'.
+Qed.
+
+Lemma in_block_gids g nm o c sp mu its l :
+  In (CGroup g nm o c sp mu its) l -> str_eqb nm s_block = true -> In g (block_gids l).
+Proof.
+  intros Hin Hb. unfold block_gids. apply in_flat_map. eexists. split; [exact Hin|].
+  cbv beta iota. rewrite Hb. left. reflexivity.
+Qed.
+
+Lemma in_gids g nm o c sp mu its l : In (CGroup g nm o c sp mu its) l -> In g (gids l).
+Proof. intros Hin. unfold gids. apply in_flat_map. eexists. split; [exact Hin|]. left. reflexivity. Qed.
+
+(* the syntactic condition gives the same case context to every block group of app *)
+Lemma case_ctx_concat vs app :
+  (forall g, In g (block_gids app) -> ~ In g (gids vs)) ->
+  head_is_block app = false \/ last_is_case vs = false ->
+  forall c, In c app -> is_block c = true -> case_ctx (CStmt vs :: app) c = case_ctx (vs ++ app) c.
+Proof.
+  intros Hfresh Hcond c Hin Hb.
+  destruct c as [| | |tk|g nm o cl sp mu its|its|ps|kvs|s]; try discriminate. cbn [is_block] in Hb.
+  pose proof (in_block_gids _ _ _ _ _ _ _ _ Hin Hb) as Hg.
+  unfold case_ctx. cbn [prev_of]. rewrite (prev_of_app_notin g vs app None (Hfresh g Hg)).
+  destruct app as [|x r]; [reflexivity|]. cbn [prev_of].
+  destruct x as [| | |tk|g' nm' o' c' sp' mu' its'|its'|ps'|kvs'|s']; try reflexivity.
+  destruct (N.eqb_spec g' g) as [->|Hne]; [|reflexivity].
+  cbn [is_case_or_default]. destruct Hcond as [Hh|Hl].
+  - exfalso. unfold head_is_block in Hh.
+    assert (Hex : existsb (N.eqb g) (block_gids (CGroup g nm' o' c' sp' mu' its' :: r)) = true).
+    { apply existsb_exists. exists g. split; [exact Hg | apply N.eqb_refl]. }
+    congruence.
+  - unfold last_is_case in Hl. destruct (lastp None vs); [symmetry; exact Hl | reflexivity].
+Qed.
+
+Section Concat.
+  Variable cfg : config.
+
+  Lemma render_ctx_irrelevant b1 b2 t c : is_block c = false -> render cfg b1 t c = render cfg b2 t c.
+  Proof.
+    destruct c as [| | |tk|g nm o cl sp mu its|its|ps|kvs|s]; try reflexivity.
+    cbn [is_block]. intros Hb. cbn [render]. rewrite Hb. reflexivity.
+  Qed.
+
+  (* Statement.render's loop, also returning the `first` flag it ends with *)
+  Definition loopf (all : list code) :=
+    fix loop (t : table) (first : bool) (l : list code) : result (table * bool * str) :=
+      match l with
+      | [] => Ok (t, first, [])
+      | c :: l' =>
+        if is_null cfg t c then loop t first l'
+        else bind (render cfg (case_ctx all c) t c) (fun r1 =>
+             bind (loop (fst r1) false l') (fun r2 =>
+             Ok (fst (fst r2), snd (fst r2), (if first then [] else S " ") ++ snd r1 ++ snd r2)))
+      end.
+
+  Lemma stmt_loop_loopf all l : forall t first,
+    stmt_loop cfg (render cfg) all t first l = bind (loopf all t first l) (fun r => Ok (fst (fst r), snd r)).
+  Proof.
+    induction l as [|c l IH]; intros t first; [reflexivity|].
+    rewrite stmt_loop_cons. cbn [loopf]. fold (loopf all).
+    destruct (is_null cfg t c); [apply IH|].
+    destruct (render cfg (case_ctx all c) t c) as [r1|m]; [|reflexivity]. cbn [bind].
+    rewrite IH. destruct (loopf all (fst r1) false l) as [r2|m]; reflexivity.
+  Qed.
+
+  Lemma loopf_app all l1 l2 : forall t first,
+    loopf all t first (l1 ++ l2) =
+    bind (loopf all t first l1) (fun r1 =>
+    bind (loopf all (fst (fst r1)) (snd (fst r1)) l2) (fun r2 =>
+    Ok (fst (fst r2), snd (fst r2), snd r1 ++ snd r2))).
+  Proof.
+    induction l1 as [|c l1 IH]; intros t first.
+    - cbn [app loopf bind fst snd]. fold (loopf all). destruct (loopf all t first l2) as [[[t2 f2] x2]|m]; reflexivity.
+    - cbn [app loopf]. fold (loopf all). destruct (is_null cfg t c); [apply IH|].
+      destruct (render cfg (case_ctx all c) t c) as [r1|m]; [|reflexivity]. cbn [bind].
+      rewrite IH. destruct (loopf all (fst r1) false l1) as [[[t1 f1] x1]|m]; [|reflexivity]. cbn [bind fst snd].
+      destruct (loopf all t1 f1 l2) as [[[t2 f2] x2]|m]; [|reflexivity]. cbn [bind fst snd].
+      rewrite <- !app_assoc. reflexivity.
+  Qed.
+
+  Lemma loopf_ctx_ext all all' l :
+    (forall c, In c l -> is_block c = true -> case_ctx all c = case_ctx all' c) ->
+    forall t first, loopf all t first l = loopf all' t first l.
+  Proof.
+    induction l as [|c l IH]; intros H t first; [reflexivity|].
+    cbn [loopf]. fold (loopf all). fold (loopf all').
+    assert (IH' : forall t first, loopf all t first l = loopf all' t first l).
+    { apply IH. intros c' Hin. apply H. right. exact Hin. }
+    rewrite IH'. destruct (is_null cfg t c); [reflexivity|].
+    assert (Hr : render cfg (case_ctx all c) t c = render cfg (case_ctx all' c) t c).
+    { destruct (is_block c) eqn:Eb.
+      - rewrite (H c (or_introl eq_refl) Eb). reflexivity.
+      - apply render_ctx_irrelevant. exact Eb. }
+    rewrite Hr. destruct (render cfg (case_ctx all' c) t c) as [r1|m]; [|reflexivity]. cbn [bind].
+    rewrite IH'. reflexivity.
+  Qed.
+
+  Lemma loopf_flag all l : forall t first t' f' x,
+    loopf all t first l = Ok (t', f', x) -> f' = first && forallb (is_null cfg t) l.
+  Proof.
+    induction l as [|c l IH]; intros t first t' f' x H.
+    - cbn in H. injection H as <- <- <-. symmetry. apply andb_true_r.
+    - cbn [loopf] in H. fold (loopf all) in H. cbn [forallb]. destruct (is_null cfg t c).
+      + cbn [andb]. eapply IH. exact H.
+      + cbn [andb]. rewrite andb_false_r.
+        destruct (render cfg (case_ctx all c) t c) as [r1|m]; [|discriminate]. cbn [bind] in H.
+        destruct (loopf all (fst r1) false l) as [[[t2 f2] x2]|m] eqn:E2; [|discriminate].
+        cbn [bind fst snd] in H. injection H as <- <- <-. apply (IH _ _ _ _ _ E2).
+  Qed.
+
+  Lemma loopf_all_null all l t first :
+    forallb (is_null cfg t) l = true -> loopf all t first l = Ok (t, first, []).
+  Proof.
+    induction l as [|c l IH]; intros H; [reflexivity|].
+    cbn [forallb] in H. apply andb_true_iff in H as [H1 H2]. cbn [loopf]. fold (loopf all).
+    rewrite H1. apply IH. exact H2.
+  Qed.
+
+  Lemma case_ctx_inside vs app c : In c vs -> case_ctx (vs ++ app) c = case_ctx vs c.
+  Proof.
+    intros Hin. destruct c as [| | |tk|g nm o cl sp mu its|its|ps|kvs|s]; try reflexivity.
+    unfold case_ctx. rewrite (prev_of_app_in g vs app None (in_gids _ _ _ _ _ _ _ _ Hin)). reflexivity.
+  Qed.
+
+  (* a statement whose first item is a statement renders as the concatenation, provided the
+     block groups of the tail see the same case context *)
+  Theorem wrapped_head_is_concat ctx t vs app :
+    (forall c, In c app -> is_block c = true -> case_ctx (CStmt vs :: app) c = case_ctx (vs ++ app) c) ->
+    render cfg ctx t (CStmt (CStmt vs :: app)) = render cfg ctx t (CStmt (vs ++ app)).
+  Proof.
+    intros H. rewrite !render_stmt_eq.
+    rewrite (stmt_loop_loopf (vs ++ app)), loopf_app.
+    rewrite (loopf_ctx_ext (vs ++ app) vs vs (fun c Hin _ => case_ctx_inside vs app c Hin)).
+    rewrite stmt_loop_cons, is_null_stmt_eq.
+    destruct (forallb (is_null cfg t) vs) eqn:En.
+    - rewrite (loopf_all_null vs vs t true En). cbn [bind fst snd].
+      rewrite stmt_loop_loopf, (loopf_ctx_ext _ _ app H).
+      destruct (loopf (vs ++ app) t true app) as [[[t2 f2] x2]|m]; reflexivity.
+    - change (case_ctx (CStmt vs :: app) (CStmt vs)) with false.
+      rewrite (render_stmt_eq cfg false t vs), (stmt_loop_loopf vs vs).
+      destruct (loopf vs t true vs) as [[[t1 f1] x1]|m] eqn:E1; [|reflexivity].
+      pose proof (loopf_flag _ _ _ _ _ _ _ E1) as Hf. rewrite En in Hf. cbn in Hf. subst f1.
+      cbn [bind fst snd]. rewrite stmt_loop_loopf, (loopf_ctx_ext _ _ app H).
+      destruct (loopf (vs ++ app) t1 false app) as [[[t2 f2] x2]|m]; reflexivity.
+  Qed.
+
+  Theorem wrapped_head_is_concat_syntactic ctx t vs app :
+    (forall g, In g (block_gids app) -> ~ In g (gids vs)) ->
+    head_is_block app = false \/ last_is_case vs = false ->
+    render cfg ctx t (CStmt (CStmt vs :: app)) = render cfg ctx t (CStmt (vs ++ app)).
+  Proof. intros H1 H2. apply wrapped_head_is_concat. apply case_ctx_concat; assumption. Qed.
+End Concat.
+
+(* C20_modified_clone_is_concat at the level of histories *)
+Theorem modified_clone_is_concat grow : grow_ok grow -> forall ops1 ops2 v,
+  bound (run grow clone_wrap ops1) v = true ->
+  let c := hp_nvars (run grow clone_wrap ops1) in
+  let h := run grow clone_wrap (ops1 ++ OClone v :: ops2) in
+  let app := appended_to c ops2 in
+  exists vs, snapshot h v = CStmt vs /\ snapshot h c = CStmt (CStmt vs :: app) /\
+    ((forall g, In g (block_gids app) -> ~ In g (gids vs)) ->
+     head_is_block app = false \/ last_is_case vs = false ->
+     forall cfg ctx t, render cfg ctx t (snapshot h c) = render cfg ctx t (CStmt (vs ++ app))).
+Proof.
+  intros Hg ops1 ops2 v Hb c h app.
+  pose proof (clone_items_kept grow Hg ops1 ops2 v Hb) as H. cbv zeta in H. fold c in H. fold h in H. fold app in H.
+  assert (Hbv : bound h v = true).
+  { apply (bound_run grow Hg). apply (bound_run grow Hg) in Hb.
+    destruct (view (run grow clone_wrap ops1) v) as [l|] eqn:Ev.
+    - pose proof (items_kept grow Hg ops1 (OClone v :: ops2) v l Ev) as Hk. fold h in Hk.
+      destruct (good_run grow (ops1 ++ OClone v :: ops2) Hg) as (Hwf & _ & _ & _).
+      apply (bound_lt _ _ Hwf). apply (bound_view _ _ Hwf). fold h. congruence.
+    - exfalso. destruct (good_run grow ops1 Hg) as (Hwf & _ & _ & _).
+      apply (bound_run grow Hg) in Hb. apply (bound_view _ _ Hwf) in Hb. congruence. }
+  destruct (snapshot_bound_stmt grow Hg _ v Hbv) as (l & _ & Hs). fold h in Hs.
+  eexists. split; [exact Hs|]. split; [rewrite H, Hs; reflexivity|].
+  intros H1 H2 cfg ctx t. rewrite H, Hs. apply wrapped_head_is_concat_syntactic; assumption.
+Qed.
+
+(* the exceptions, as witnesses *)
+Definition cc_tk (b : byte) : code := CTok (TkId [b]).
+Definition cc_case : code := CGroup 1 (S "case") (S "case ") (S ":") (S ",") false [cc_tk x61].
+Definition cc_block : code := CGroup 2 (S "block") (S "{") (S "}") [] true [cc_tk x62].
+Definition cc_cfg : config := mkcfg [] [] [].
+
+(* Case(a).Clone().Block(b): the block's previous item is the whole original statement, not
+   its Case group, so the clone keeps the braces the concatenation loses *)
+Lemma clone_case_block_keeps_braces :
+  head_is_block [cc_block] = true /\ last_is_case [cc_case] = true /\
+  render cc_cfg false [] (CStmt (CStmt [cc_case] :: [cc_block]))
+    = Ok ([], S "case a: {" ++ [x0a] ++ S "b" ++ [x0a] ++ S "}") /\
+  render cc_cfg false [] (CStmt ([cc_case] ++ [cc_block]))
+    = Ok ([], S "case a: " ++ [x0a] ++ S "b").
+Proof. vm_compute. repeat split; reflexivity. Qed.
+
+(* the SAME *Group in the original and appended to the clone (possible through Add of a
+   group captured in a BlockFunc callback): Statement.previous finds its first occurrence *)
+Lemma clone_shared_block_differs :
+  (exists g, In g (block_gids [cc_block]) /\ In g (gids [cc_case; cc_block])) /\
+  head_is_block [cc_block] = true /\ last_is_case [cc_case; cc_block] = false /\
+  render cc_cfg false [] (CStmt (CStmt [cc_case; cc_block] :: [cc_block]))
+    = Ok ([], S "case a: " ++ [x0a] ++ S "b {" ++ [x0a] ++ S "b" ++ [x0a] ++ S "}") /\
+  render cc_cfg false [] (CStmt ([cc_case; cc_block] ++ [cc_block]))
+    = Ok ([], S "case a: " ++ [x0a] ++ S "b " ++ [x0a] ++ S "b").
+Proof.
+  split; [exists 2%N; split; [left; reflexivity | right; left; reflexivity]|].
+  vm_compute. repeat split; reflexivity.
+Qed.
+
+(* RAW neighbours, not live ones, decide: a Null() between the case and the block makes the
+   clone a plain concatenation although the last LIVE item of the original is a case *)
+Lemma clone_null_between :
+  last_is_case [cc_case; CTok TkNull] = false /\
+  render cc_cfg false [] (CStmt (CStmt [cc_case; CTok TkNull] :: [cc_block]))
+  = render cc_cfg false [] (CStmt ([cc_case; CTok TkNull] ++ [cc_block])).
+Proof. vm_compute. split; reflexivity. Qed.
